@@ -234,6 +234,17 @@ fn bounds(quick: bool) -> (usize, usize) {
 /// The child: runs the whole sweep, prints one JSON line of results.
 pub fn child(tier: &str) {
     let quick = tier != "thorough";
+    // a case that does not return is handed to the parent as one line and ends this process
+    mcx::watch::start_with(
+        "C03",
+        tier,
+        std::time::Duration::from_secs(60),
+        Some(Box::new(|key, what, replay| {
+            let mut o = std::io::stdout().lock();
+            let _ = writeln!(o, "HANG {}", json!({"key": key, "what": what, "replay": replay}));
+            let _ = o.flush();
+        })),
+    );
     let (max_len, max_limit) = bounds(quick);
     let shards = shard_prefixes(growth_alphabet().len());
     let results = mcx::par_map(shards.len(), |k| {
@@ -316,6 +327,16 @@ pub fn child(tier: &str) {
             viols.push(json!({"key": k, "what": w, "replay": rp}));
         }
     }
+    // extreme numeric values: every int/bool/float instruction on every ordered operand triple / pair of
+    // the wide value alphabet (shared with C01(d)): must return, must not panic, result as the semantics admit
+    {
+        let mut tmp = Run::new("C03", tier);
+        let st = crate::c01::value_sweep(Mode::C01, &mut tmp);
+        tot["value_sweep_transitions"] = json!(st.transitions);
+        for (k, v) in tmp.violations.lock().unwrap().iter() {
+            viols.push(json!({"key": k, "what": v.what, "replay": v.replay}));
+        }
+    }
     tot["deep_runs"] = json!(deep_runs);
     tot["deep_undecided"] = json!(deep_undecided);
     tot["deep_depths"] = json!(depths.len());
@@ -349,6 +370,7 @@ pub fn run(run: &mut Run) {
     let mut open: std::collections::BTreeSet<usize> = Default::default();
     let mut result: Option<Value> = None;
     let mut hung = false;
+    let mut hang_case: Option<Value> = None;
     loop {
         match rx.recv_timeout(std::time::Duration::from_millis(200)) {
             Ok(line) => {
@@ -358,6 +380,8 @@ pub fn run(run: &mut Run) {
                     open.remove(&k.trim().parse().unwrap_or(0));
                 } else if let Some(j) = line.strip_prefix("RESULT ") {
                     result = serde_json::from_str(j).ok();
+                } else if let Some(j) = line.strip_prefix("HANG ") {
+                    hang_case = serde_json::from_str(j).ok();
                 }
             }
             Err(std::sync::mpsc::RecvTimeoutError::Timeout) => {
@@ -375,11 +399,19 @@ pub fn run(run: &mut Run) {
     run.bound("step_limits", json!(format!("0..={max_limit}")));
     run.bound("capacity_configurations", json!(cap_configs().len()));
     run.bound("gene_alphabet", json!(growth_alphabet().iter().map(gene_name).collect::<Vec<_>>()));
-    run.rule = "all genomes up to the length bound over the growth alphabet (block duplication, exec dup/swap/flush, conditionals, squaring/power chains, output), every capacity 0..4 globally and per stack, every step limit; each run on the real run_to_completion in a child process; non-trivial = runs whose admissible result is an abort or a truncation by the limit".into();
+    run.rule = "all genomes up to the length bound over the growth alphabet (block duplication, exec dup/swap/flush, conditionals, squaring/power chains, output), every capacity 0..4 globally and per stack, every step limit; each run on the real run_to_completion in a child process; plus the deep-nesting family and the wide operand value sweep (every int/bool/float instruction on all ordered triples/pairs of 33 ints / 31 floats) under a hang watchdog; non-trivial = runs whose admissible result is an abort or a truncation by the limit".into();
     run.assumptions = vec![
         "PushRef + tolerance sets decide which result kinds are admissible".into(),
         "nesting depth: every depth 8..=300 and the neighbourhoods of 512 and 1024 (thorough: 4096) are run exactly; beyond that the recursion of the subject's parser/Clone/Drop is a resource limit outside any enumerable bound (DESIGN C03)".into(),
     ];
+    if let Some(h) = hang_case {
+        run.violation(
+            h["key"].as_str().unwrap_or("hang").to_string(),
+            h["what"].as_str().unwrap_or("a case did not return").to_string(),
+            h["replay"].clone(),
+        );
+        return;
+    }
     if hung {
         let shards = shard_prefixes(growth_alphabet().len());
         let k = open.iter().next().copied().unwrap_or(0);
@@ -408,6 +440,8 @@ pub fn run(run: &mut Run) {
     run.note("runs_undecided_by_pop_cap", res["undecided"].clone());
     run.note("programs_aborting_at_max_limit", res["aborted"].clone());
     run.note("programs_truncated_at_max_limit", res["truncated"].clone());
+    run.note("value_sweep.transitions", res["value_sweep_transitions"].clone());
+    run.evaluations += res["value_sweep_transitions"].as_u64().unwrap_or(0);
     run.note("deep.runs", res["deep_runs"].clone());
     run.note("deep.undecided", res["deep_undecided"].clone());
     run.note("deep.depths", res["deep_depths"].clone());
@@ -437,6 +471,7 @@ pub fn run(run: &mut Run) {
 pub fn replay(v: &Value) -> bool {
     match v["kind"].as_str() {
         Some("run") => crate::interp::replay_run(Mode::C01, v),
+        Some("perform") => crate::c01::replay(Mode::C01, v),
         Some("deep") => {
             let d = v["depth"].as_u64().unwrap_or(0) as usize;
             let kind = v["deep_kind"].as_str().unwrap_or("when-true").to_string();
